@@ -27,7 +27,7 @@ VARIANTS = [
 
 def plan(seed):
     rng = random.Random(seed)
-    prog = P.gen_program(rng)
+    prog = P.gen_program(rng, n_mods=1 if seed % 2 else None)      # single-module programs can also run as script / notebook
     call = P.root_call(prog, rng)
     jobs = [("baseline", [("prog", prog), ("act", call)], {})]
     for name, kw in VARIANTS:
@@ -77,6 +77,15 @@ def plan(seed):
     for kind, pv in versions:
         ev += [("act", {"a": "reprog", "prog": pv}), ("act", call)]
     jobs.append(("in-process-source-edits", ev, dict(store_kind="memory")))
+    if len(prog["modules"]) == 1:
+        # the same code used as the __main__ script of the process, and typed into cells of an IPython shell
+        jobs.append(("usage=script", [("prog", prog), ("act", call)], dict(usage="script", store_kind="memory")))
+        jobs.append(("usage=notebook", [("prog", prog), ("act", call)], dict(usage="notebook", store_kind="memory")))
+        edits = [e for e in P.edit_catalogue(prog, rng) if e[0] in ("body", "var", "literal")]
+        if edits:
+            kind, info, pe = rng.choice(edits)
+            evn = [("prog", prog), ("act", call), ("act", {"a": "reprog", "prog": pe}), ("act", call), ("act", {"a": "reprog", "prog": copy.deepcopy(prog)}), ("act", call)]
+            jobs.append(("notebook-redefinition", evn, dict(usage="notebook", store_kind="memory")))
     for kind, pv in versions:
         jobs.append(("fresh:" + kind, [("prog", pv), ("act", call)], dict(store_kind="memory")))
     return {"seed": seed, "prog": prog, "call": call, "jobs": jobs}
@@ -121,7 +130,8 @@ def run_job(job):
     name, ev, kw = job
     try:
         recs = hist.run_history(ev, run_ref=False, run_model=(name in ("baseline", "after-earlier-evaluations-in-process", "in-process-source-edits",
-                                                                       "one-evaluation", "after-earlier-evaluation", "fresh")), **kw)
+                                                                       "one-evaluation", "after-earlier-evaluation", "fresh",
+                                                                       "usage=script", "usage=notebook", "notebook-redefinition")), **kw)
         return recs
     except Exception as e:  # noqa
         return {"error": str(e)[-1000:]}
@@ -132,7 +142,8 @@ def run(rep, tier, seed, proof_ok):
     rep.rule = (f"{n_prog} random pipelines x {{PYTHONHASHSEED 0/1/7/random, other working directory, fresh package directory per run, "
                 "store kinds local/memory/noop/local+object-cache, extra_debug off, graph export on, after earlier evaluations and a "
                 "variable change + revert in the same process, source edits that keep the compiled code (comment / default value / decorator path / "
-                "revert) made while the process lives vs a fresh process on the same files}: every signature map must equal the baseline and the Coq model's; plus the "
+                "revert) made while the process lives vs a fresh process on the same files, the same single-module code run as the __main__ script and "
+                "as IPython notebook cells (with redefinition of the cells)}: every signature map must equal the baseline and the Coq model's; plus the "
                 f"pinned corpus corpus/C03 ({len(corpus.corpus_programs())} programs): implementation and model must reproduce the "
                 "committed signatures byte for byte; distinct = distinct (program, variant); non-trivial = the evaluation keeps at least one path")
     plans = [plan(seed * 1000 + i) for i in range(n_prog)]
@@ -168,6 +179,8 @@ def run(rep, tier, seed, proof_ok):
                                   f"after the source edit '{name[6:]}' made while the process lives the signatures are {str(inproc[idx])[:80]}, a fresh "
                                   f"process computes {str(sig)[:80]} for the same files", {"variant": name, "events": [j for j in pl["jobs"] if j[0] == "in-process-source-edits"][0][1],
                                                                                        "in_process": inproc[idx], "fresh": sig})
+            elif name == "notebook-redefinition":
+                pass        # compared with the model below (the edited version has other signatures than the baseline)
             elif name == "baseline":
                 base = sig
             elif sig != base:
